@@ -161,7 +161,7 @@ func TestVerifBounded_C06_Compose(t *testing.T) {
 			}
 		})
 	}
-	fmt.Printf("BOUNDED name=C06.compose cases=%d nontrivial=%d exhaustive=true domain=%q\n", cases, nontrivial, "sequence \"aaccggtt\", offsets {-2,0,3}, all lists of 0..2 features touching the sequence with coordinates within one position outside it, orientations forward/reverse/none")
+	fmt.Printf("BOUNDED name=C06.compose cases=%d nontrivial=%d exhaustive=true domain=%q\n", cases, nontrivial, "sequence \"aaccggtt\", offsets {-2,0,3}, all lists of 0..2 features with coordinates from two positions before to two positions after the sequence (features partly or wholly outside are clipped), orientations forward/reverse/none")
 }
 
 type verifQuality struct {
